@@ -73,12 +73,17 @@ def run(tier, seed, drv):
                    'volatile contenders closed at scope end; a re-entrant holder closed with its own inner scope while contenders of an outer scope are queued; (b) random whole-API programs with a lock-heavy profile; '
                    'non-trivial = at least two different activities entered a lock; distinct = distinct scenario')
     n = 150 if tier == 'quick' else 6000
+    made = []
     for sc in msuite.corpus(PID):
         st.check(msuite.fix_fractions(sc), nontrivial=nontrivial)
     for i in range(n):
         rng = rng_for(seed, 'c09', i)
         sc = closed_holder(rng) if i % 8 == 3 else family(rng) if i % 2 == 0 else gen.gen_scenario(rng, PROFILE)
-        st.check(sc, nontrivial=nontrivial)
+        impl = st.check(sc, nontrivial=nontrivial)
+        if len(made) < (100 if tier == 'quick' else 1000) and not msuite.USAGE_ASSERTION.search(msuite.obs_line(impl)):
+            made.append(sc)
+    # the same programs once more under `python -O` (judge only; the model describes assertions-on behaviour)
+    msuite.judge_in_config(st, made, 'O', {}, ['-O'])
     return st.finish()
 
 
